@@ -12,6 +12,8 @@ MODEL_MAP = [
     {'python': 'pyipmi/interfaces/ipmb.py:IpmbHeaderRsp.encode/decode', 'coq': 'Model.Ipmb.hdr_rsp_encode/hdr_rsp_decode'},
     {'python': 'pyipmi/interfaces/ipmb.py:encode_ipmb_msg', 'coq': 'Model.Ipmb.encode_ipmb_msg'},
     {'python': 'pyipmi/interfaces/ipmb.py:rx_filter', 'coq': 'Model.Ipmb.rx_filter'},
+    {'python': '(specification side, no library code) harness/c03.py:build_reply and IpmbHeaderRsp.encode + body + checksum',
+     'coq': 'Model.Ipmb.rsp_frame'},
 ]
 FIELDS = ['rs_sa', 'rs_lun', 'rq_sa', 'rq_lun', 'rq_seq', 'netfn', 'cmdid']
 OPTS = ['rq_sa', 'rs_sa', 'rq_lun', 'rs_lun', 'rq_seq']
@@ -282,6 +284,15 @@ def run(ctx):
         h[5] &= 0x3e  # registered requests have an even netfn
         data = bytes(rng.randrange(256) for _ in range(rng.choice([0, 1, 2, 5, 17, 40])))
         f = build_reply(h, data)
+        # the frame the theorems C03_conforming_reply_accepted / C03_other_request_rejected speak
+        # about (Model.Ipmb.rsp_frame) is this frame, and also what IpmbHeaderRsp.encode yields
+        add('chk_rsp_frame %s %s %s' % (hl(h), C.c_hex(data), exp_bytes(f)), ('rsp_frame', h, data.hex()))
+        rh = attempt(lambda: mk_rsp(h[:5] + [h[5] | 1] + h[6:]).encode())
+        if not isinstance(rh, Exception):
+            rest = bytes(rh[3:]) + data
+            add('chk_rsp_frame %s %s %s' % (hl(h), C.c_hex(data),
+                                             exp_bytes(bytes(rh) + data + bytes([ipmb.checksum(rest)]))),
+                ('rsp_frame-via-IpmbHeaderRsp', h, data.hex()))
 
         def filt(fr, o):
             r = attempt(lambda: ipmb.rx_filter(mk_req(h), fr, **dict(zip(OPTS, o))))
